@@ -206,7 +206,8 @@ func c17Run(r *runCtx, id string, f []string) {
 	waitFor := func(n int) {
 		deadline := time.Now().Add(2 * time.Second)
 		for count() < n && time.Now().Before(deadline) {
-			if kind == "fifo" {
+			if kind == "fifo" || kind == "unixgram" {
+				// (a datagram stream that read an empty datagram sleeps until its next poll)
 				hw.wakeAll()
 			}
 			time.Sleep(300 * time.Microsecond)
@@ -248,7 +249,8 @@ func c17Run(r *runCtx, id string, f []string) {
 		if p[0] == "w" && len(want) == count() {
 			// an unterminated fragment completes no line, so there is nothing to wait for; give the
 			// reader (which is blocked in Read) time to take the bytes before the next event
-			if kind == "fifo" {
+			if kind == "fifo" || kind == "unixgram" {
+				// (a datagram stream that read an empty datagram sleeps until its next poll)
 				hw.wakeAll()
 			}
 			time.Sleep(8 * time.Millisecond)
@@ -322,6 +324,8 @@ func init() {
 				g.emit("sock", kind, "o:1;w:1:"+hx("a\nb")+";x:1;z")
 				g.emit("sock", kind, "o:1;w:1:"+hx("a\r\nfrag")+";z")
 				g.emit("sock", kind, "o:1;x:1;z")
+				// an empty write (for a datagram socket: an empty datagram) is not the end of anything
+				g.emit("sock", kind, "o:1;w:1:"+hx("a\n")+";w:1:-;w:1:"+hx("b\n")+";w:1:-;w:1:-;w:1:"+hx("c\n")+";x:1;z")
 				if kind == "unix" || kind == "tcp" {
 					g.emit("sock", kind, "o:1;o:2;w:1:"+hx("c1-x")+";w:2:"+hx("c2-y\n")+";w:1:"+hx("z\n")+";x:2;x:1;z")
 					g.emit("sock", kind, "o:1;w:1:"+hx("c1-p")+";o:2;w:2:"+hx("c2-q")+";x:1;x:2;z")
